@@ -72,6 +72,43 @@ def h_factory(ctx, kind, cfg, twin=False):
         ctx.holds("twin", u != b.pdu)
 
 
+def h_big(ctx, kind, cfg, dfl):
+    """PDUs whose data field is long (concrete filler contents, symbolic header fields): the length field uses all 16 bits"""
+    conf, v = sym_conf(ctx, cfg[0], cfg[1], crc=cfg[2], large=cfg[3], segctrl=0)
+    n = 8 if cfg[3] else 4
+    if kind == "filedata":
+        nd = dfl - n - (2 if cfg[2] else 0)
+        data = bytes((i * 13 + 5) & 0xFF for i in range(nd))
+        off = ctx.int("offset", 0, (1 << (8 * n)) - 1)
+        pdu = FileDataPdu(conf, FileDataParams(data, off, None))
+        body = be(off, n) + list(data)
+        check = lambda u: sym_and(u.offset == off, len(u.file_data) == nd, u.file_data == data)  # noqa: E731
+        ref = assemble(ctx, kind, v, body, seg_meta=0, pdu_type=1)
+    else:   # nak with many segment requests
+        nseg = (dfl - 1 - 2 * n - (2 if cfg[2] else 0)) // (2 * n)
+        start, end = ctx.int("start", 0, 255), ctx.int("end", 0, 255)
+        segs = [(i, i + 1) for i in range(nseg)]
+        pdu = NakPdu(conf, start, end, segs)
+        body = [8] + be(start, n) + be(end, n) + [x for a, b2 in segs for x in be(a, n) + be(b2, n)]
+        check = lambda u: sym_and(u.start_of_scope == start, u.end_of_scope == end, len(u.segment_requests) == nseg,  # noqa: E731
+                                  u.segment_requests[-1][1] == nseg)
+        ref = assemble(ctx, kind, v, body)
+    raw = pdu.pack()
+    ctx.holds("pack == reference layout", sym_and(len(raw) == len(ref), raw == ctx.bytes_of(ref)), "len=%d ref=%d" % (len(raw), len(ref)))
+    e, u = call(PduFactory.from_raw, raw)
+    if e is not None:
+        ctx.fail("from_raw raised on a packed PDU", exc_name(e))
+        return
+    ctx.holds("factory returns exactly the packed kind", type(u) is CLASSES[kind], "got %s" % type(u).__name__)
+    if type(u) is not CLASSES[kind]:
+        return
+    ctx.holds("factory result == original", u == pdu)
+    ctx.holds("factory result exposes the original parameters", check(u))
+    ctx.holds("factory result re-packs identically", sym_and(u.pack() == raw, u.packet_len == len(raw)))
+    h = PduFactory.from_raw_to_holder(raw)
+    ctx.holds("holder from raw: lengths and octets", sym_and(h.packet_len == len(raw), h.pack() == raw))
+
+
 h_factory.must_reach = ["factory returns exactly the packed kind", "factory result == original"]
 
 
@@ -81,11 +118,16 @@ def cases(tier):
     for kind in KINDS:
         for (i, s) in ws:
             for crc in (0, 1):
-                for large in tier_pick(tier, (0,), (0, 1)):
+                for large in (0, 1):
                     cfg = (i, s, crc, large)
                     cs.append(Case("%s-%s" % (kind, cname(cfg)), kind, h_factory, dict(kind=kind, cfg=cfg), budget=900,
                                    bounds="%s PDU (%s), config %s, all parameter values; 8x8 accessor matrix on the constructed "
                                           "and on the decoded object" % (kind, VAR[kind], cname(cfg))))
+    for kind in ("filedata", "nak"):
+        for cfg in tier_pick(tier, [(1, 1, 0, 0), (2, 2, 1, 1)], [(1, 1, 0, 0), (2, 2, 1, 1), (1, 1, 1, 0), (8, 8, 0, 1)]):
+            for dfl in tier_pick(tier, (255, 256, 32767, 32768, 65535), (255, 256, 257, 4095, 4096, 16383, 16384, 32767, 32768, 32769, 49152, 65534, 65535)):
+                cs.append(Case("big-%s-%s-dfl%d" % (kind, cname(cfg), dfl), "big", h_big, dict(kind=kind, cfg=cfg, dfl=dfl), budget=900,
+                               bounds="%s PDU with a data field of (about) %d octets, concrete contents, all header field values" % (kind, dfl)))
     cs.append(Case("twin", "eof", h_factory, dict(kind="eof", cfg=(1, 1, 0, 0), twin=True), expect_violation=True,
                    bounds="reachability twin"))
     return cs
